@@ -23,6 +23,8 @@ fn cfg() -> BroadCfg {
         help: HelpGen::Markers,
         version: true,
         custom_help: true,
+        dup_names: true,
+        odd_groups: true,
         ..BroadCfg::default()
     }
 }
@@ -195,6 +197,23 @@ fn find_marker(hay: &str, marker: &str) -> Option<usize> {
     None
 }
 
+/// a definition term followed by the end of the term (blank or end of line), so that `--color`
+/// is not found inside `--color=WHEN`
+fn find_term(body: &str, term: &str) -> Option<usize> {
+    let mut from = 0;
+    while let Some(p) = body[from..].find(term) {
+        let at = from + p;
+        let end = at + term.len();
+        let next = body[end..].chars().next();
+        let before_ok = at == 0 || body[..at].ends_with(' ');
+        if before_ok && next.map_or(true, |c| c == ' ' || c == '\n') {
+            return Some(at);
+        }
+        from = end;
+    }
+    None
+}
+
 fn first_marker(d: &Option<DocSpec>) -> Option<String> {
     let t = d.as_ref()?.flat();
     let first = t.split("\n\n").next()?.to_owned();
@@ -344,7 +363,7 @@ pub fn check_level(root: &Level, path: &[String], level: &Level, ctx: &mut Ctx) 
                 }
                 // (a) term and first paragraph marker
                 let term = named_term(x);
-                let pos = match body.find(term.trim_start()) {
+                let pos = match find_term(&body, term.trim_start()) {
                     Some(p) => p,
                     None => {
                         return fail("visible-item-missing-from-help", format!("no term {:?} in the item lists", term))
